@@ -274,9 +274,16 @@ type scenario struct {
 	run  func(tw *hx.TraceWriter, rep *hx.Report, seed int64)
 }
 
+// empty blocks only (performance baseline of the trace specification)
+func scEmpty(tw *hx.TraceWriter, rep *hx.Report, seed int64) {
+	w := startChain(tw, rep, baseCfg(seed), "z-empty")
+	w.blocks(100)
+}
+
 var scenarios = []scenario{
 	{"a", scUnstakePendingClaim}, {"b", scAppTransferMidSession}, {"c", scMaxValidatorsJailed}, {"d", scStakeMinimumSlash},
 	{"e", scDaoPools}, {"f", scFeeMultiplier}, {"g", scFeatureUpgrade}, {"h", scMatureAtBoundary},
+	{"zempty", scEmpty},
 }
 
 // ---- random mixed driver ----------------------------------------------------------------------------
@@ -333,7 +340,10 @@ func (g *mix) send(st chainsim.State) absTx {
 	from := g.pick("a6", "a7", "a1", "a4", "a10", "a11", "a13")
 	to := g.pick("a6", "a7", "a11", "a13", "a14", "a9", "a10", "staked_tokens_pool", "application_staked_tokens_pool", "dao", "fee_collector", from)
 	bal := st.Bal[from]
-	amount := g.pick64(1, bal-10001, bal-10000, bal-9999, bal+1, 1+g.r.Int63n(60000), 1+g.r.Int63n(60000), 0)
+	amount := g.pick64(1, 1+g.r.Int63n(60000), 1+g.r.Int63n(60000), 1+g.r.Int63n(600000), 0)
+	if from == "a7" || from == "a10" {
+		amount = g.pick64(1, bal-10001, bal-10000, bal-9999, bal+1, 1+g.r.Int63n(60000), 1+g.r.Int63n(60000), 0)
+	}
 	if amount < 0 {
 		amount = 1 + g.r.Int63n(1000)
 	}
@@ -391,10 +401,14 @@ func (g *mix) nodeUnstakeOrUnjail(st chainsim.State, kind string) absTx {
 	w := g.w
 	node := g.pick(nodeNames...)
 	if kind == "node_unjail" && g.r.Intn(4) > 0 {
+		found := false
 		for _, n := range nodeNames {
 			if v, ok := st.Val[n]; ok && v.Jailed {
-				node = n
+				node, found = n, true
 			}
+		}
+		if !found && g.r.Intn(4) > 0 {
+			return nil
 		}
 	}
 	out := node
@@ -475,11 +489,48 @@ func (g *mix) appTx(st chainsim.State) absTx {
 
 var appKeyOf = map[string]int{"a4": kA1, "a5": kA2, "a11": kA3, "a13": kSpare, "a14": kFresh, "a6": kU1}
 
+// claim: mostly a claim that has a chance (an ended session inside the claim window, a staked
+// application, one of the session's nodes - read from the real chain to CHOOSE inputs), sometimes
+// an arbitrary one
 func (g *mix) claim(st chainsim.State, h int64) absTx {
 	w := g.w
 	B := st.NodeParams["SessionBlockFrequency"]
-	Wd := st.PcParams["ClaimSubmissionWindow"]
 	cur := ((h-1)/B)*B + 1
+	e := []evSpec{e5, e6, e6dup, e8, e5, e6, e8, e5}[g.r.Intn(8)]
+	total := int64(e.N)
+	if g.r.Intn(10) < 7 {
+		var cands []int64
+		for k := int64(1); k <= 4; k++ {
+			S := cur - k*B
+			if S < w.firstH {
+				break
+			}
+			if Bs, _, ok := w.paramsAt(S); ok && (S-1)%Bs == 0 && S+Bs-1 < h {
+				cands = append(cands, S)
+			}
+		}
+		staked := g.stakedApps(st)
+		if len(cands) > 0 && len(staked) > 0 {
+			S := cands[g.r.Intn(len(cands))]
+			if g.r.Intn(3) > 0 {
+				S = cands[0]
+			}
+			appName := staked[g.r.Intn(len(staked))]
+			app := appKeyOf[appName]
+			chains := st.App[appName].Chains
+			chain := chains[g.r.Intn(len(chains))]
+			node := g.pickI(kN1, kN2, kN3, kN4)
+			if sn := w.sessionNodes(w.header(app, chain, S)); len(sn) > 0 && g.r.Intn(8) > 0 {
+				if ni := w.keyIdx(sn[g.r.Intn(len(sn))]); ni >= 0 {
+					node = ni
+				}
+			}
+			tx := w.claimTx(node, app, chain, S, total, e, node)
+			tx["_claim"] = sentClaim{node, app, chain, S, e}
+			return tx
+		}
+	}
+	Wd := st.PcParams["ClaimSubmissionWindow"]
 	node := g.pickI(kN1, kN2, kN3, kN4, kN1, kN2)
 	appName := g.pick("a4", "a5", "a11", "a4", "a5", "a6", "a13")
 	app := appKeyOf[appName]
@@ -487,25 +538,20 @@ func (g *mix) claim(st chainsim.State, h int64) absTx {
 	if r, ok := st.App[appName]; ok && len(r.Chains) > 0 {
 		chain = r.Chains[g.r.Intn(len(r.Chains))]
 	}
-	if g.r.Intn(12) == 0 {
+	if g.r.Intn(8) == 0 {
 		chain = g.pick("0001", "0002", "0003")
 	}
 	S := cur - B*int64(1+g.r.Intn(int(Wd)+1))
-	switch g.r.Intn(15) {
+	switch g.r.Intn(10) {
 	case 0:
 		S++ // not a session start
 	case 1:
 		S = cur // not over yet
 	}
 	if S < w.firstH {
-		S = cur - B
-		if S < w.firstH {
-			S = w.firstH
-		}
+		S = w.firstH
 	}
-	e := []evSpec{e5, e6, e6dup, e8, e5, e6}[g.r.Intn(6)]
-	total := int64(e.N)
-	switch g.r.Intn(14) {
+	switch g.r.Intn(10) {
 	case 0:
 		total = 1000
 	case 1:
@@ -514,7 +560,7 @@ func (g *mix) claim(st chainsim.State, h int64) absTx {
 		total = int64(e.N) + 1
 	}
 	signer := node
-	if g.r.Intn(15) == 0 {
+	if g.r.Intn(10) == 0 {
 		signer = g.pickI(kN1, kN2, kN3)
 	}
 	tx := w.claimTx(node, app, chain, S, total, e, signer)
@@ -522,26 +568,51 @@ func (g *mix) claim(st chainsim.State, h int64) absTx {
 	return tx
 }
 
+// pending reads the claims the chain currently holds (to choose which one to prove)
+func (g *mix) pending() []sentClaim {
+	var out []sentClaim
+	for _, c := range g.w.claims() {
+		if c.Root < 0 {
+			continue
+		}
+		ni, ai := g.w.keyIdx(c.Node), g.w.keyIdx(c.App)
+		if ni < 0 || ai < 0 {
+			continue
+		}
+		out = append(out, sentClaim{ni, ai, c.Chain, c.SessionH, evOfID(c.Root)})
+	}
+	return out
+}
+
 func (g *mix) proof(st chainsim.State, h int64) absTx {
 	w := g.w
-	if len(g.claims) == 0 {
-		return nil
-	}
-	cl := g.claims[g.r.Intn(len(g.claims))]
 	open := func(c sentClaim) bool {
 		B, Wd, ok := w.paramsAt(c.S)
-		return ok && h >= c.S+Wd*B && h <= c.S+Wd*B+5*B
+		return ok && h >= c.S+Wd*B
 	}
-	if g.r.Intn(4) > 0 {
-		for try := 0; try < 8 && !open(cl); try++ {
-			cl = g.claims[g.r.Intn(len(g.claims))]
+	var cl sentClaim
+	pend := g.pending()
+	var ready []sentClaim
+	for _, c := range pend {
+		if open(c) {
+			ready = append(ready, c)
 		}
+	}
+	switch {
+	case len(ready) > 0 && g.r.Intn(10) < 8:
+		cl = ready[g.r.Intn(len(ready))]
+	case len(pend) > 0 && g.r.Intn(3) > 0:
+		cl = pend[g.r.Intn(len(pend))] // too early
+	case len(g.claims) > 0 && g.r.Intn(4) == 0:
+		cl = g.claims[g.r.Intn(len(g.claims))] // possibly paid or expired already
+	default:
+		return nil
 	}
 	if _, _, ok := w.paramsAt(cl.S); !ok {
 		return nil
 	}
 	po := req()
-	switch g.r.Intn(16) {
+	switch g.r.Intn(24) {
 	case 0:
 		po.Leaf = "next"
 	case 1:
@@ -642,7 +713,7 @@ func (g *mix) vary(tx absTx) absTx {
 	case 4:
 		tx["sigOK"], tx["badSign"] = false, true
 	case 5:
-		tx["fee"] = g.pick64(9999, 0, 10001, 50000)
+		tx["fee"] = g.pick64(tx["fee"].(int64)-1, 0, tx["fee"].(int64)+1, 50000, 10000)
 	case 6:
 		tx["memoLen"] = 76 + g.r.Intn(200)
 	case 7:
@@ -672,14 +743,54 @@ func (g *mix) multi() absTx {
 	return a
 }
 
+// upkeep keeps the economy alive (chooses inputs only): stakes a node / an application when few
+// are staked, refills accounts that ran dry from the rich account a8
+func (g *mix) upkeep(st chainsim.State) absTx {
+	w := g.w
+	nStaked := 0
+	for _, v := range st.Val {
+		if v.Status == 2 && !v.Jailed {
+			nStaked++
+		}
+	}
+	if nStaked < 3 && g.r.Intn(2) == 0 {
+		for _, n := range []string{"a1", "a2", "a3", "a9"} {
+			if _, ok := st.Val[n]; !ok && st.Bal[n] > 7000000 {
+				out := g.pick(n, "a10")
+				min := st.NodeParams["StakeMinimum"]
+				return w.nodeStakeTx(n, out, min+g.pick64(0, 1000000, 2000000), [][]string{{"0001"}, {"0001", "0002"}, {"0002"}}[g.r.Intn(3)], urls[0], g.delegators(), n)
+			}
+		}
+	}
+	if len(g.stakedApps(st)) < 2 && g.r.Intn(2) == 0 {
+		for _, a := range []string{"a4", "a5", "a11"} {
+			if _, ok := st.App[a]; !ok && st.Bal[a] > 4000000 {
+				return w.appStakeTx(a, a, [][]string{{"0001"}, {"0002"}, {"0001", "0002"}}[g.r.Intn(3)], st.AppParams["AppStakeMin"]+g.pick64(0, 1000000, 1500000))
+			}
+		}
+	}
+	if g.r.Intn(3) == 0 && st.Bal["a8"] > 40000000 {
+		for _, n := range []string{"a1", "a2", "a3", "a4", "a5", "a6", "a7", "a9", "a10", "a11", "a13"} {
+			if st.Bal[n] < 3000000 {
+				return w.sendTx("a8", n, 8000000)
+			}
+		}
+	}
+	return nil
+}
+
 func (g *mix) tx(st chainsim.State, h int64) absTx {
 	var tx absTx
+	if up := g.upkeep(st); up != nil {
+		up["fee"] = g.w.requiredFee(up)
+		return up
+	}
 	switch x := g.r.Intn(100); {
 	case x < 13:
 		tx = g.send(st)
-	case x < 25:
+	case x < 26:
 		tx = g.nodeStake(st)
-	case x < 30:
+	case x < 29:
 		tx = g.nodeUnstakeOrUnjail(st, "node_unstake")
 	case x < 37:
 		tx = g.nodeUnstakeOrUnjail(st, "node_unjail")
@@ -698,6 +809,10 @@ func (g *mix) tx(st chainsim.State, h int64) absTx {
 	}
 	if tx == nil {
 		tx = g.send(st)
+	}
+	// declare the fee the current multipliers require (the variations below also try lower ones)
+	if tx["multisig"] != true {
+		tx["fee"] = g.w.requiredFee(tx)
 	}
 	if g.r.Intn(9) == 0 {
 		tx = g.vary(tx)
@@ -839,7 +954,7 @@ func traceAll(out string, n, blocks int, scen string, split int) {
 		randomChain(next(), rep, i, blocks)
 	}
 	for _, sc := range scenarios {
-		if scen == "all" || strings.Contains(","+scen+",", ","+sc.name+",") {
+		if (scen == "all" && !strings.HasPrefix(sc.name, "z")) || strings.Contains(","+scen+",", ","+sc.name+",") {
 			sc.run(next(), rep, hx.Seed()*100+int64(len(sc.name)))
 		}
 	}
